@@ -276,6 +276,29 @@ class SymEval:
             return ("unk", "if-let / if without else")
         t = self.ev(e["then"], env)
         f = self.ev(e["else"], env)
+        # `|y| < K` with a positive constant K: a piecewise value whose first piece lives on a non-empty interval around 0
+        if cond.get("k") == "Binary" and cond.get("op") in ("Lt", "Le", "Gt", "Ge") and t[0] == "s" and f[0] == "s":
+            cl = strip(cond["l"])
+            if isinstance(cl, dict) and cl.get("k") == "Call" and (callee(cl) or "").rsplit("::", 1)[-1] == "abs" and cl["args"] \
+                    and ("<impl %s>" % self.fl) in (callee(cl) or ""):
+                try:
+                    inner = self.scalar(self.ev(cl["args"][0], env))
+                    bound = self.scalar(self.ev(cond["r"], env))
+                except Abstain:
+                    return ("unk", "condition outside the algebra")
+                pos = False
+                if not isinstance(bound, PW) and not isinstance(inner, PW):
+                    ats = bound.atoms()
+                    if not ats and bound.d == Poly.const(1):
+                        pos = bound.n.t.get((), 0) > 0
+                    elif ats and all(a.startswith("const+:") for a in ats) and bound.n.single() is not None and bound.n.single()[0] > 0 and bound.d == Poly.const(1):
+                        pos = True
+                if not pos or isinstance(t[1], PW) or isinstance(f[1], PW):
+                    return ("unk", "|x| compared with something that is not a positive constant")
+                key = "AbsLt(%r|%r)" % (inner, bound)
+                if cond["op"] in ("Lt", "Le"):
+                    return ("s", PW(key, t[1], f[1]))
+                return ("s", PW(key, f[1], t[1]))
         # a comparison of a scalar with a constant: a piecewise value
         if cond.get("k") == "Binary" and cond.get("op") in ("Gt", "Ge", "Lt", "Le") and t[0] == "s" and f[0] == "s":
             try:
@@ -453,6 +476,13 @@ class SymEval:
                         if xx[0] in ("s", "v", "arr") and not isinstance(xx[1], PW):
                             self.divisors.append(xx[1])
                 return self.map1(x, lambda v: v.powlf(pl))
+            if m in ("copysign",) and len(args) == 2:
+                # +-|x| with the sign of the second argument: an opaque value (never equal to anything else)
+                y = self.ev(args[1], env)
+                try:
+                    return ("s", self.alg.atom("copysign[%s|%s]" % (self.canon(x), self.canon(y))))
+                except Abstain as ex:
+                    return ("unk", str(ex))
             if m in ("max", "min") and len(args) == 2:
                 # a clamp: piecewise, with the condition as a symbol (the shape relu uses)
                 y = self.ev(args[1], env)
